@@ -17,6 +17,8 @@
 -/
 import AHP.Lemmas.Format
 import AHP.Lemmas.FormatLexMini
+import AHP.Lemmas.FormatLexExact
+import AHP.Lemmas.FormatLexConv
 namespace AHP.C11
 open AHP AHP.Fmt
 -- the lexer's side (namespace `AHP`) has declarations with the same short names as the formatter model
@@ -109,13 +111,8 @@ theorem verbatim_blocks_exact (cfg : Cfg) (c : Ctx) (p : Str) (s : Str) :
     decorate cfg c p (.text true s) = .text true s := by
   simp [decorate]
 
-/-- What the serialiser adds before the end tag of a (not self-closing) element is its `_indent` or nothing; for
-    script/style this is "the line break and indentation the pretty printers place before the end tag". -/
-theorem end_tag_text (n ind : Str) (kids : List Node) :
-    endTag n false ind kids = ind ++ str "</" ++ n ++ str ">" ∨ endTag n false ind kids = str "</" ++ n ++ str ">" := by
-  rcases endTag_cases n ind kids with h | h
-  · exact Or.inl h
-  · exact Or.inr h.1
+-- (`end_tag_text`, a restatement of `endTag`'s definition, is replaced by `script_style_content_reparses` below: the
+-- statement about the re-parsed output it was meant to support.)
 
 /-! #### string level: the output text lexes back and re-parses to the same document -/
 
@@ -175,6 +172,92 @@ theorem formatter_output_reparses (cfg : Cfg) (hi : IndentWS cfg) (toks : List T
     simp only [St.root, rootOfStack, Option.map_some]
     rw [cskel_outRoot cfg hi n st sc kids hs]
 
+/-- **C11b on the re-parsed output (string level).**  Same hypotheses as `formatter_output_reparses`; the comparison is
+    the finer skeleton `pskel` (`Lemmas/FormatLexExact.lean`) instead of `cskel`: lexing the formatter's output text and
+    building with the plain parser gives a document with the same doctype whose tree has the same elements, nesting,
+    attribute stores and self-closing flags, references and comments verbatim, and
+
+    * **every data block below a pre/code element — at any depth, inside nested elements too — character for character**
+      (adjacent data blocks joined, as re-tokenising joins them);
+    * the content of every script/style element outside pre/code equal up to its trailing run of line-feed / space / tab
+      characters (`stripTail`; exactly what is appended: `script_style_content_reparses`);
+    * all other text equal after removing white space (as in `cskel`). -/
+theorem formatter_output_reparses_exact (cfg : Cfg) (hi : IndentWS cfg) (toks : List Tok)
+    (h : NoWrapperStart toks) (ps : St) (hp : Plain.feed toks = .ok ps)
+    (n : Str) (st : AStore) (sc : Bool) (kids : List FNode)
+    (hroot : ps.root = some (FNode.elem n st sc kids).toNode) (hw : WrapperOK n st sc kids)
+    (hs : (FNode.elem n st sc kids).Strict) (hdt : DtOK ps.doctype) :
+    ∃ out toks' ps', format cfg toks = .ok out ∧ lexStrict out = some toks' ∧
+      Plain.feed (toks'.map Tok.ofToken) = .ok ps' ∧ ps'.doctype = ps.doctype ∧
+      ps'.root.map pskel = ps.root.map pskel := by
+  obtain ⟨out, hout, hlex⟩ := formatter_output_lexes cfg hi toks h ps hp n st sc kids hroot hw hs hdt
+  rw [hroot]
+  unfold docToks at hlex
+  by_cases hn : n = wrapper
+  · obtain ⟨hst, hsc, hmulti⟩ := hw hn
+    subst hn; subst hsc; subst hst
+    simp only [if_true] at hlex
+    have hk' := strictL_of_wrapper {} false kids hs
+    refine ⟨out, _, _, hout, hlex, doc_reparse_multi cfg hi ps.doctype kids hk' hdt hmulti, rfl, ?_⟩
+    simp only [St.root, rootOfStack, Option.map_some]
+    rw [pskel_outM cfg hi ps.doctype {} kids hk']
+  · simp only [hn, if_false] at hlex
+    refine ⟨out, _, _, hout, hlex, doc_reparse cfg hi ps.doctype n st sc kids hs hdt, rfl, ?_⟩
+    simp only [St.root, rootOfStack, Option.map_some]
+    rw [pskel_outRoot cfg hi n st sc kids hs]
+
+/-- **C11b, script/style on the re-parsed output: exactly what is added.**  Same hypotheses.  List the contents
+    (concatenated text) of the script/style elements in document order (`rawConts`), for the plain parser's tree of the
+    input (`r`) and for its tree of the lexed output text (`r'`): the two lists have the same length and, element by
+    element (`TailsRel`), the output's content is the input's content, or the input's content followed by **a line break
+    and spaces/tabs** — "the line break and indentation the pretty printers place before the end tag" (`TailRel`;
+    which of the two, and how many units: C12's layout law).  Replaces `end_tag_text`. -/
+theorem script_style_content_reparses (cfg : Cfg) (hi : IndentWS cfg) (toks : List Tok)
+    (h : NoWrapperStart toks) (ps : St) (hp : Plain.feed toks = .ok ps)
+    (n : Str) (st : AStore) (sc : Bool) (kids : List FNode)
+    (hroot : ps.root = some (FNode.elem n st sc kids).toNode) (hw : WrapperOK n st sc kids)
+    (hs : (FNode.elem n st sc kids).Strict) (hdt : DtOK ps.doctype) :
+    ∃ out toks' ps' r', format cfg toks = .ok out ∧ lexStrict out = some toks' ∧
+      Plain.feed (toks'.map Tok.ofToken) = .ok ps' ∧ ps'.root = some r' ∧
+      TailsRel (rawConts (FNode.elem n st sc kids).toNode) (rawConts r') := by
+  obtain ⟨out, hout, hlex⟩ := formatter_output_lexes cfg hi toks h ps hp n st sc kids hroot hw hs hdt
+  unfold docToks at hlex
+  by_cases hn : n = wrapper
+  · obtain ⟨hst, hsc, hmulti⟩ := hw hn
+    subst hn; subst hsc; subst hst
+    simp only [if_true] at hlex
+    have hk' := strictL_of_wrapper {} false kids hs
+    exact ⟨out, _, _, _, hout, hlex, doc_reparse_multi cfg hi ps.doctype kids hk' hdt hmulti, rfl,
+      rawConts_outM cfg hi ps.doctype {} kids hk'⟩
+  · simp only [hn, if_false] at hlex
+    exact ⟨out, _, _, _, hout, hlex, doc_reparse cfg hi ps.doctype n st sc kids hs hdt, rfl,
+      rawConts_outRoot cfg hi n st sc kids hs⟩
+
+/-- **`pskel` refines `cskel`.**  On trees whose script/style content consists of data blocks only (`RawData`: every tree
+    the tokenizer can give rise to — raw text is reported as data —, in particular every strict tree, `rawData_strict`)
+    `cskel` is a function of `pskel` (`cskel t = canon (skel (pskel t))`): trees with the same `pskel` have the same
+    `cskel`, so `formatter_output_reparses_exact` implies `formatter_output_reparses`. -/
+theorem pskel_refines_cskel (a b : Node) (ha : RawData a) (hb : RawData b) (h : pskel a = pskel b) :
+    cskel a = cskel b := cskel_of_pskel a b ha hb h
+
+/-- what `pskel` keeps, spelled out on the three kinds of data: below pre/code the block itself; outside, the block
+    without white space; of script/style outside pre/code the concatenated text without its trailing LF/space/tab run -/
+theorem pskel_keeps (s : Str) (k : Kind) (n : Str) (st : AStore) (sc : Bool) (ind : Str) (kids : List Node) :
+    pskelAt true (.text false s) = .text false s
+    ∧ pskelAt false (.text false s) = .text false (eraseWS s)
+    ∧ (isPre n = true → pskelAt false (.elem k n st sc ind kids) = .elem .normal n st sc [] (pskelAtL true kids))
+    ∧ (isRawText n = true →
+        pskelAt false (.elem k n st sc ind kids) = .elem .normal n st sc [] [.text false (stripTail (textCat kids))]) := by
+  refine ⟨rfl, rfl, ?_, ?_⟩
+  · intro hp
+    have hr : isRawText n = false := by
+      cases hr : isRawText n with
+      | false => rfl
+      | true => rw [raw_not_pre n hr] at hp; cases hp
+    simp [pskelAt, hp, hr]
+  · intro hr
+    simp [pskelAt, hr]
+
 /-- **C11 (string level, token form).**  For every strict single-root document tree `u` (any size, any depth),
     every doctype and every formatter class: feed the formatter the token sequence of the document; its output
     text lexes, and the plain parser builds from it a document with the same doctype and the tree of `u` modulo
@@ -187,6 +270,101 @@ theorem formatter_roundtrip_strict (cfg : Cfg) (hi : IndentWS cfg) (dt : Option 
       ps'.root.map cskel = some (cskel (FNode.elem n st sc kids).toNode) := by
   have hp := plain_feed_strictToks dt hdt n st sc kids hs
   exact formatter_output_reparses cfg hi _ hnw _ hp n st sc kids rfl (fun e => absurd e hn) hs hdt
+
+/-! #### C11c — `getFormattedHTML` / `getMiniHTML` = formatter ∘ `getHTML` (a composition through text) -/
+
+/-- `AdvancedHTMLParser.getFormattedHTML(indent)` / `.getMiniHTML()` as the code has them (Parser.py):
+    `html = self.getHTML()`; a fresh formatter of the class in question is fed `html` — i.e. the text is tokenised
+    again —; `formatter.getHTML()`.  The tokenizer in between is the strict lexer of C01: `none` = the text of `getHTML()`
+    is outside its domain (never for strict documents: `getFormattedHTML_is_format_of_getHTML`); a `getHTML()` that raises
+    (nothing parsed) raises here too. -/
+def viaGetHTML (cfg : Cfg) (toks : List Tok) : Option (Except Err Str) :=
+  match Plain.html toks with
+  | .error e => some (.error e)
+  | .ok html => (lexStrict html).map (fun ts => format cfg (ts.map Tok.ofToken))
+
+/-- `parser.getFormattedHTML(indent)`: `AdvancedHTMLFormatter(indent, None)` -/
+def getFormattedHTML (ind : IndentArg) (toks : List Tok) : Option (Except Err Str) :=
+  viaGetHTML (mkCfg .pretty ind false) toks
+/-- `parser.getMiniHTML()`: `AdvancedHTMLMiniFormatter(None)` -/
+def getMiniHTML (toks : List Tok) : Option (Except Err Str) := viaGetHTML (mkCfg .mini .dflt false) toks
+
+/-- **C11c.**  Any formatter class; any token sequence whose plain-parser tree is a strict document `u` (single- or
+    multi-root) without the reserved name below the root.  Then `getHTML()` returns a text `html` that the strict lexer
+    reads back (`toks'` = the tokens of `u` with adjacent data blocks glued; C01), the convenience method **is the
+    formatter applied to those tokens**, and those tokens are again a document of the class all C11/C12 statements are
+    about: they do not start the reserved name, the plain parser builds from them `reparsed` — `u` with adjacent data
+    blocks joined (multi-root: the line break after the doctype line becomes text of the wrapper) — with the same
+    doctype, strict again, and with the same `pskel` as `u`. -/
+theorem getFormattedHTML_is_format_of_getHTML (cfg : Cfg) (toks : List Tok) (ps : St) (hp : Plain.feed toks = .ok ps)
+    (n : Str) (st : AStore) (sc : Bool) (kids : List FNode)
+    (hroot : ps.root = some (FNode.elem n st sc kids).toNode) (hw : WrapperOK n st sc kids)
+    (hs : (FNode.elem n st sc kids).Strict) (hdt : DtOK ps.doctype) (hnw : NoWrapperL (plainBlocks n st sc kids)) :
+    ∃ html toks', Plain.html toks = .ok html ∧ lexStrict html = some toks' ∧
+      viaGetHTML cfg toks = some (format cfg (toks'.map Tok.ofToken)) ∧
+      NoWrapperStart (toks'.map Tok.ofToken) ∧
+      Plain.feed (toks'.map Tok.ofToken)
+        = .ok ⟨[], some (reparsed ps.doctype n st sc kids).toNode, ps.doctype, 0, 0⟩ ∧
+      (reparsed ps.doctype n st sc kids).Strict ∧
+      pskel (reparsed ps.doctype n st sc kids).toNode = pskel (FNode.elem n st sc kids).toNode := by
+  have hhtml : Plain.html toks = .ok (renderToksY TagStyle.normal (htmlToks ps.doctype n st sc kids)) := by
+    simp only [Plain.html, hp, hroot]
+    exact plain_html_text ps.doctype n st sc kids hw
+  have hlex := plain_html_lex ps.doctype hdt n st sc kids hs
+  refine ⟨_, _, hhtml, hlex, ?_, nw_htmlToks ps.doctype n st sc kids hs hnw,
+    plain_html_reparse ps.doctype hdt n st sc kids hw hs, reparsed_strict ps.doctype n st sc kids hw hs,
+    pskel_reparsed ps.doctype n st sc kids hw⟩
+  simp [viaGetHTML, hhtml, hlex]
+
+/-- **C11c + C11a/b: the convenience methods preserve the document.**  Same hypotheses, indent unit of spaces/tabs: the
+    method returns a text; that text lexes and the plain parser builds from it a document with the same doctype and the
+    same `pskel` as the parser's own tree (`formatter_output_reparses_exact` composed with the step through `getHTML()`). -/
+theorem getFormattedHTML_preserves_document (cfg : Cfg) (hi : IndentWS cfg) (toks : List Tok) (ps : St)
+    (hp : Plain.feed toks = .ok ps) (n : Str) (st : AStore) (sc : Bool) (kids : List FNode)
+    (hroot : ps.root = some (FNode.elem n st sc kids).toNode) (hw : WrapperOK n st sc kids)
+    (hs : (FNode.elem n st sc kids).Strict) (hdt : DtOK ps.doctype) (hnw : NoWrapperL (plainBlocks n st sc kids)) :
+    ∃ out toks'' ps'', viaGetHTML cfg toks = some (.ok out) ∧ lexStrict out = some toks'' ∧
+      Plain.feed (toks''.map Tok.ofToken) = .ok ps'' ∧ ps''.doctype = ps.doctype ∧
+      ps''.root.map pskel = ps.root.map pskel := by
+  obtain ⟨html, toks', _, _, hvia, hnws, hfeed, hstrict, hpsk⟩ :=
+    getFormattedHTML_is_format_of_getHTML cfg toks ps hp n st sc kids hroot hw hs hdt hnw
+  have hwOK := reparsed_wrapperOK ps.doctype n st sc kids hw
+  by_cases hn : n = wrapper
+  · obtain ⟨e, hw'⟩ := hwOK.1 hn
+    rw [e] at hfeed hstrict hpsk
+    obtain ⟨out, t2, ps2, h1, h2, h3, h4, h5⟩ := formatter_output_reparses_exact cfg hi _ hnws _ hfeed _ _ _ _ rfl hw'
+      hstrict hdt
+    refine ⟨out, t2, ps2, by rw [hvia, h1], h2, h3, h4, ?_⟩
+    rw [h5, hroot]
+    simp only [St.root, rootOfStack, Option.map_some, hpsk]
+  · obtain ⟨e, hw'⟩ := hwOK.2 hn
+    rw [e] at hfeed hstrict hpsk
+    obtain ⟨out, t2, ps2, h1, h2, h3, h4, h5⟩ := formatter_output_reparses_exact cfg hi _ hnws _ hfeed _ _ _ _ rfl hw'
+      hstrict hdt
+    refine ⟨out, t2, ps2, by rw [hvia, h1], h2, h3, h4, ?_⟩
+    rw [h5, hroot]
+    simp only [St.root, rootOfStack, Option.map_some, hpsk]
+
+/-- For a single-root strict document without adjacent data blocks (`Glued`: what every parse of strict text gives) the
+    step through `getHTML()` changes nothing: the convenience method returns exactly what the formatter returns on the
+    original token sequence. -/
+theorem getFormattedHTML_eq_format_glued (cfg : Cfg) (toks : List Tok) (hnwt : NoWrapperStart toks) (ps : St)
+    (hp : Plain.feed toks = .ok ps) (n : Str) (st : AStore) (sc : Bool) (kids : List FNode)
+    (hroot : ps.root = some (FNode.elem n st sc kids).toNode) (hn : n ≠ wrapper)
+    (hs : (FNode.elem n st sc kids).Strict) (hg : (FNode.elem n st sc kids).Glued) (hdt : DtOK ps.doctype)
+    (hnw : (FNode.elem n st sc kids).NoWrapper) :
+    viaGetHTML cfg toks = some (format cfg toks) := by
+  have hw : WrapperOK n st sc kids := fun e => absurd e hn
+  have hnw' : NoWrapperL (plainBlocks n st sc kids) := by
+    simp only [plainBlocks, hn, if_false, NoWrapperL]
+    exact ⟨hnw, trivial⟩
+  obtain ⟨html, toks', _, _, hvia, hnws, hfeed, _, _⟩ :=
+    getFormattedHTML_is_format_of_getHTML cfg toks ps hp n st sc kids hroot hw hs hdt hnw'
+  have hre : reparsed ps.doctype n st sc kids = .elem n st sc kids := by
+    simp only [FNode.Glued] at hg
+    simp only [reparsed, hn, if_false, mergeL_glued kids hg.1 hg.2]
+  rw [hre] at hfeed
+  rw [hvia, format_text cfg _ hnws _ hfeed n st sc kids rfl hw hs, format_text cfg toks hnwt ps hp n st sc kids hroot hw hs]
 
 /-! #### C12c at string level (stated here: the lexer bridge lives with C11; `Props/C12.lean` lists it as partial) -/
 
@@ -300,6 +478,74 @@ example : ∃ out toks2, format (mkCfg .mini .dflt false) (strictToks (some (str
     (by simp only [FNode.Glued, GluedL, FNoAdjL, fisDataTok]; decide)
     (by simp only [FNode.NoWrapper, NoWrapperL]; decide)
 
+/-- `formatter_output_reparses_exact` applies to `sampleToks` (a `pre` with a nested `span` holding `  y  `) … -/
+example : ∃ out toks' ps', format (mkCfg .pretty (.str (str "  ")) false) sampleToks = .ok out ∧
+    lexStrict out = some toks' ∧ Plain.feed (toks'.map Tok.ofToken) = .ok ps' ∧ ps'.doctype = none ∧
+    ps'.root.map pskel = some (pskel sampleTree.toNode) :=
+  formatter_output_reparses_exact (mkCfg .pretty (.str (str "  ")) false) (by decide) sampleToks (by decide)
+    ⟨[], some sampleTree.toNode, none, 0, 0⟩ (by rfl) _ _ _ _ rfl (by decide)
+    (by simp only [FNode.Strict, StrictL]; decide) trivial
+
+example : ∃ out toks' ps' r', format (mkCfg .pretty .dflt false) rawToks = .ok out ∧
+    lexStrict out = some toks' ∧ Plain.feed (toks'.map Tok.ofToken) = .ok ps' ∧ ps'.root = some r' ∧
+    TailsRel (rawConts rawTree.toNode) (rawConts r') :=
+  script_style_content_reparses (mkCfg .pretty .dflt false) (by decide) rawToks (by decide)
+    ⟨[], some rawTree.toNode, some (str "DOCTYPE html"), 0, 0⟩ (by rfl) _ _ _ _ rfl (by decide)
+    (by simp only [FNode.Strict, StrictL]; decide) (by decide)
+
+example : rawConts rawTree.toNode = [str "if (a < b && c) { s = \"</div>\"; }"] := by decide
+
+/-- `pskel` is strictly finer than `cskel`: white space below pre/code (here inside a nested element) is erased by
+    `cskel` and kept by `pskel` -/
+def preA : Node := .elem .normal (str "pre") {} false [] [.elem .normal (str "b") {} false [] [.text false (str " y ")]]
+def preB : Node := .elem .normal (str "pre") {} false [] [.elem .normal (str "b") {} false [] [.text false (str "y")]]
+
+example : cskel preA = cskel preB ∧ pskel preA ≠ pskel preB := by
+  have e1 : eraseWS (str " y ") = str "y" := by decide
+  have e2 : eraseWS (str "y") = str "y" := by decide
+  have e3 : isRawText (str "pre") = false := by decide
+  have e4 : isRawText (str "b") = false := by decide
+  have e5 : isPre (str "pre") = true := by decide
+  constructor
+  · simp [preA, preB, cskel, skel, skelL, e1, e2]
+  · simp only [preA, preB, pskel, pskelAt, pskelAtL, e3, e4, e5, Bool.and_false, Bool.false_eq_true, if_false,
+      Bool.or_true, if_true, Bool.not_false, Bool.true_or]
+    simp [canon, canonL, pushText, str]
+/-- C11c on `sampleToks` (single root, no adjacent data blocks): the convenience method = the formatter on the tokens -/
+example : getFormattedHTML (.str (str "  ")) sampleToks = some (format (mkCfg .pretty (.str (str "  ")) false) sampleToks) :=
+  getFormattedHTML_eq_format_glued _ sampleToks (by decide) ⟨[], some sampleTree.toNode, none, 0, 0⟩ (by rfl) _ _ _ _ rfl
+    (by decide) (by simp only [FNode.Strict, StrictL]; decide)
+    (by simp only [sampleTree, FNode.Glued, GluedL, FNoAdjL, fisDataTok]; decide) trivial
+    (by simp only [sampleTree, FNode.NoWrapper, NoWrapperL]; decide)
+
+/-- C11c on the multi-root document with a doctype (mini class): hypotheses met, and the computed result -/
+example : ∃ out toks'' ps'', getMiniHTML multiToks = some (.ok out) ∧ lexStrict out = some toks'' ∧
+    Plain.feed (toks''.map Tok.ofToken) = .ok ps'' ∧ ps''.doctype = some (str "doctype html") ∧
+    ps''.root.map pskel = some (pskel (FNode.elem wrapper {} false multiKids).toNode) :=
+  getFormattedHTML_preserves_document (mkCfg .mini .dflt false) (by decide) multiToks
+    ⟨[], some (FNode.elem wrapper {} false multiKids).toNode, some (str "doctype html"), 0, 0⟩ (by rfl) _ _ _ _ rfl
+    (by decide) (by simp only [multiKids, FNode.Strict, StrictL]; decide) (by decide)
+    (by simp only [multiKids, plainBlocks, if_true, FNode.NoWrapper, NoWrapperL]; decide)
+
+example : (match getMiniHTML multiToks with
+    | some r => okIs r "<!doctype html>\na <b >x</b>&amp;<br />"
+    | none => false) = true := by decide +kernel
+example : (match getFormattedHTML (.int 1) multiToks with
+    | some r => okIs r "<!doctype html>\na \n<b >x\n</b>&amp;\n<br />"
+    | none => false) = true := by decide +kernel
+/-- `getFormattedHTML_is_format_of_getHTML` on the raw-text document (pretty class), and `pskel_refines_cskel`'s
+    hypothesis on its tree -/
+example : ∃ html toks', Plain.html rawToks = .ok html ∧ lexStrict html = some toks' ∧
+    getFormattedHTML .dflt rawToks = some (format (mkCfg .pretty .dflt false) (toks'.map Tok.ofToken)) :=
+  let ⟨html, toks', h1, h2, h3, _⟩ := getFormattedHTML_is_format_of_getHTML (mkCfg .pretty .dflt false) rawToks
+    ⟨[], some rawTree.toNode, some (str "DOCTYPE html"), 0, 0⟩ (by rfl) _ _ _ _ rfl (by decide)
+    (by simp only [FNode.Strict, StrictL]; decide) (by decide)
+    (by
+      have hn : str "div" ≠ wrapper := by decide
+      simp only [plainBlocks, hn, if_false, FNode.NoWrapper, NoWrapperL]; decide)
+  ⟨html, toks', h1, h2, h3⟩
+example : RawData rawTree.toNode := rawData_strict _ (by simp only [rawTree, FNode.Strict, StrictL]; decide)
+
 /-- the output texts in question -/
 example : okIs (format (mkCfg .slim (.int 4) true) multiToks)
     "<!doctype html>\na \n<b>x\n</b>&amp;\n<br/>" = true := by decide
@@ -317,9 +563,17 @@ example : okIs (format (mkCfg .pretty .dflt false) rawToks)
     documents with the data singletons `<` / `&` as text blocks are outside (`NotSingleton`: the data rule can strip
     the white space that kept `<` from opening markup, e.g. `<\nabc` → `<abc`, on the real library too).  The
     comparison is by `cskel` (= `skel` + empty data blocks dropped + adjacent data blocks joined), which is what "same
-    text modulo white space" means once the `_indent`s have become text of the document.
-  * C11c (`getFormattedHTML`/`getMiniHTML` = formatter ∘ `getHTML`): these two methods are compositions with the
-    tokenizer in between; checked by the oracle (`convenience`) and the correspondence stream (`via: parser`).
+    text modulo white space" means once the `_indent`s have become text of the document; `…_reparses_exact` compares by
+    the finer `pskel` (pre/code content exact).
+  * C11c (`getFormattedHTML`/`getMiniHTML` = formatter ∘ `getHTML`) is now stated as the composition through text it is
+    in the code (`viaGetHTML`, `getFormattedHTML_is_format_of_getHTML`, `…_preserves_document`,
+    `…_eq_format_glued`) for strict documents.  What remains tie-only there: that the stdlib tokenizer agrees with
+    `lexStrict` on the text of `getHTML()` (C01's tie), documents outside the strict sub-language, and the equality
+    "convenience method = formatter on the original tokens" for multi-root documents and for trees with adjacent data
+    blocks (for the latter it is false in general: the joined piece is squeezed as one) — oracle `convenience`, stream
+    entry `via: parser`.
+  * `pskel` compares script/style content up to its trailing LF/space/tab run; the exact form of what is appended is
+    `script_style_content_reparses` (a line break and spaces/tabs, or nothing).
 -/
 
 /-! #### known finding `C11-singleton-joined` (kept in the model as it is in the code)
